@@ -50,6 +50,8 @@ Uninhabited(s) == RecOnlyReach(s, Defs(s), {})
 (***************************************************************************)
 Explained(e, clause) == {}   \* filled per finding below
 
+OneSidedAllocRefusal(e) == (e.gen.ekind = "alloc") # (e.ser.ekind = "alloc")
+
 DatumFails(e) ==
   LET env == Defs(e.s)
       P   == Parse(e.bytes, 1, e.s, env)
@@ -62,7 +64,10 @@ DatumFails(e) ==
      \cup If(~g.ok \/ (g.reenc.ok /\ g.redec.ok /\ VEq(g.redec.v, g.v)), "C06:reencode-redecode")
      \* the dynamic target of the schema-aware deserializer takes logical types as their base, so the
      \* checks that exist only at the logical level (big-decimal inner framing, uuid text/length) are not compared
+     \* a refusal under the configured allocation limit (error kind "alloc") says nothing about completeness:
+     \* the two decoders charge a declared count differently (items x size of the in-memory value vs. nothing up front)
      \cup If(g.panic \/ e.ser.panic \/ (~g.ok /\ P.why \in {"bigdec-inner", "uuidtext", "uuidlen"})
+             \/ OneSidedAllocRefusal(e)
              \/ (g.ok = e.ser.ok /\ (g.ok => g.consumed = e.ser.consumed)),
              "C06:decoders-disagree")
      \cup If(~(P.ok /\ ~g.ok /\ ~g.panic) \/ e.limit < 500000000, "C02:rejected-spec-legal")
@@ -88,7 +93,9 @@ Judge(e) ==
         \cup If(e.largest <= Bound(e.limit, hasmap, codec), "C05:allocation-above-limit")
         \* "heavy" inputs (hundreds of thousands of declared items) are judged for C05 only
         \cup (IF e.entry = "datum" /\ e.outcome \in {"ok", "err"} /\ ~e.heavy THEN DatumFails(e) ELSE {})
-  IN [fail |-> fail, known |-> {}, drift |-> {}]
+      drift == IF e.entry = "datum" /\ e.outcome \in {"ok", "err"} /\ ~e.heavy /\ OneSidedAllocRefusal(e) /\ e.gen.ok # e.ser.ok
+               THEN {"limit-refusal-by-one-decoder-only"} ELSE {}
+  IN [fail |-> fail, known |-> {}, drift |-> drift]
 
 Init == l = 1
 Next == /\ l <= Len(Rec)
